@@ -288,6 +288,16 @@ def promoted_type(pure_type: ValueType) -> ValueType:
     return ValueType(True, 32)
 
 
+def wrap_to_type(val: int, val_type: ValueType) -> int:
+    """Returns the value an object of the given integer type holds
+    after val was converted to it (C11 6.3.1.3).
+    """
+    val &= (1 << val_type.bit_width) - 1
+    if val_type.signed and val >> (val_type.bit_width - 1):
+        val -= 1 << val_type.bit_width
+    return val
+
+
 def get_value_type_from_reg_type(token_list: list) -> ValueType:
     """Determines the size for Hexagon registers by their parse tree tokens."""
     reg_type: Token = token_list[0].value  # R, P, V, Q etc.
